@@ -144,7 +144,7 @@ fn groups_case(cols: usize, rows: usize) {
 // @sym width,height in 1..=6, stride in width..=6; group width/height in 1..=6 such that the grid is exactly covered by 2x2 groups (container size concrete, geometry symbolic); the probed cell and the second group symbolic
 // @bound grids up to 6x6, 2x2 groups (3x2 and 1x3 in the thorough tier)
 // @oblig the groups returned by one call are pairwise disjoint, lie inside the parent and cover it: cell (x,y) is addressed by exactly group (x/gw, y/gh) at local (x%gw, y%gh); sizes are min(gw, w - gx*gw) etc. (the partition premise the parallel renderer relies on)
-// @outside more than 3 groups per axis; zero-sized trailing groups (over-count) of into_groups_with_fixed_count
+// @outside more than 3 groups per axis; over-count is in c02_into_groups_overcount
 #[kani::proof]
 #[kani::unwind(4)]
 pub fn c02_into_groups_partition_2x2() {
@@ -161,6 +161,54 @@ pub fn c02_into_groups_partition_2x2() {
 #[kani::unwind(5)]
 pub fn c02_into_groups_partition_3x2() {
     groups_case(3, 2);
+}
+
+/// Over-count: more group columns/rows requested than the grid has (callers partition shifted
+/// channels with the group count of the unshifted image): groups wholly outside are zero-sized.
+fn groups_overcount_case(cols: usize, rows: usize) {
+    let mut buf = [0i32; N];
+    let base = buf.as_ptr();
+    let (w, h, s) = any_geometry();
+    kani::assume(h <= 4);
+    // the whole 36-element buffer backs the grid, so that the row/column pointers formed for the
+    // outside groups stay inside the allocation (pointer formation itself is discussed in DESIGN C02)
+    let g = MutableSubgrid::from_buf(&mut buf[..], w, h, s);
+    let gw: usize = kani::any();
+    let gh: usize = kani::any();
+    kani::assume(gw >= 1 && gw <= 6 && gh >= 1 && gh <= 6);
+    // at least the last column (and possibly more) lies wholly outside
+    kani::assume((cols - 1) * gw >= w);
+    let mut groups = g.into_groups_with_fixed_count(gw, gh, cols, rows);
+    assert!(groups.len() == cols * rows);
+    let (cx, cy): (usize, usize) = (kani::any(), kani::any());
+    kani::assume(cx < cols && cy < rows);
+    let gi = cy * cols + cx;
+    let want_w = if cx * gw >= w { 0 } else { core::cmp::min(gw, w - cx * gw) };
+    let want_h = if cy * gh >= h { 0 } else { core::cmp::min(gh, h - cy * gh) };
+    assert!(groups[gi].width() == want_w);
+    assert!(groups[gi].height() == want_h);
+    // whatever a group can address lies inside the parent grid, in its own cell range
+    let (ox, oy): (usize, usize) = (kani::any(), kani::any());
+    if let Some(q) = groups[gi].try_get_mut(ox, oy) {
+        let idx = ptr_index(base, q as *mut i32);
+        assert!(ox < want_w && oy < want_h);
+        assert!(idx == (cy * gh + oy) * s + cx * gw + ox);
+    }
+    kani::cover!(want_w == 0 && want_h > 0, "column wholly outside");
+    kani::cover!(want_w > 0 && want_w < gw, "ragged column next to an outside one");
+    core::mem::forget(groups);
+}
+
+// @prop C02 C07
+// @tier quick
+// @unit jxl_grid::MutableSubgrid::into_groups_with_fixed_count with more groups than the grid holds
+// @sym width in 1..=6, height in 1..=4, stride, group size in 1..=6 such that at least the last of 3 columns lies wholly beyond the right edge; 3 columns x 2 rows; probed group and cell symbolic
+// @bound grids up to 6x4, 3x2 groups
+// @oblig no arithmetic overflow in a checked build; groups wholly outside are zero-sized, the others have the clipped size; every cell a group can address is its own cell of the parent (no aliasing, nothing outside)
+#[kani::proof]
+#[kani::unwind(5)]
+pub fn c02_into_groups_overcount() {
+    groups_overcount_case(3, 2);
 }
 
 // @prop C02 C07
@@ -474,7 +522,7 @@ pub fn c13_aligned_grid_zero_area() {
 }
 
 // @prop C13
-// @tier thorough
+// @tier quick
 // @unit jxl_grid::AlignedGrid::<i32>::{with_alloc_tracker,try_clone}
 // @sym grid 2x1; tracker limit up to 4096; alignment offsets nondeterministic
 // @bound one size
